@@ -135,12 +135,13 @@ func (c *Component) recv() {
 		switch p := val.(type) {
 		case stanza.StreamError:
 			c.router.route(c, val)
-			c.streamError(p.Error.Local, p.Text)
 			c.ErrorHandler(errors.New("stream error: " + p.Error.Local))
-			// We don't return here, because we want to wait for the stream close tag from the server, or timeout.
+			// The stream is over: close our side (this waits for the server's stream close tag, or times out),
+			// then tell the application, which may reconnect from the callback - this loop must neither close
+			// nor read the connection it establishes there.
 			c.Disconnect()
-			// The stream error was routed above: not a second time.
-			continue
+			c.streamError(p.Error.Local, p.Text)
+			return
 		case stanza.StreamClosePacket:
 			// TCP messages should arrive in order, so we can expect to get nothing more after this occurs
 			c.transport.ReceivedStreamClose()
